@@ -720,7 +720,13 @@ pub fn c13(o: &mut Out, seed: u64, sc: &Scale) {
                         w.apply(Op::LDrop { l: dropped });
                     }
                     if w.connecting.contains_key(&0) {
-                        w.apply(Op::CPoll { c: 0, s: 0 });
+                        let r = w.apply(Op::CPoll { c: 0, s: 0 });
+                        // lossless handshake, the listener of the client's family is alive with room:
+                        // the connect must not be refused (F-C13-5); a refusal is an extra OBS line
+                        let mine = if client_v6 { 1 } else { 0 };
+                        if r[0] == "err refused" && w.listeners.contains_key(&mine) {
+                            w.lines.push("OBS xcheck refused-while-listening".into());
+                        }
                     }
                     for l in 0..2u32 {
                         if w.listeners.contains_key(&l) {
